@@ -19,10 +19,10 @@ IMPORTS = ("Require Import Hdl21.Base.PyInt Hdl21.Spec.Namespace Hdl21.Model.Nam
 
 KIND = dict(port="(KSignal true)", sig="(KSignal false)", inst="KInstance", arr="KInstArray", ibun="KInstBundle",
             bun="KBundleInst", str="KStr", none="KStr", int="KOther", mod="KOther", gen="KOther", bdef="KOther",
-            func="KOther")
+            func="KOther", role="KOther")
 HDL_M = ["port", "sig", "inst", "arr", "ibun", "bun"]
 HDL_B = ["port", "sig", "bun"]
-NONHDL = ["int", "mod", "gen", "bdef", "func", "none", "str"]
+NONHDL = ["int", "mod", "gen", "bdef", "func", "none", "str", "role"]
 
 
 def hdl_kinds(ctr):
@@ -138,7 +138,7 @@ def py_repro(job):
     """A python one-liner-ish reproducer of a history."""
     mk = dict(port="h.Port({})", sig="h.Signal({})", inst="h.Instance(of=Leaf{})", arr="h.InstanceArray(of=Leaf, n=2{})",
               ibun="h.Pair(of=Leaf{})", bun="h.BundleInstance(of=Sub{})", str="'Renamed'", none="None", int="7",
-              mod="h.Module(name='X')", gen="SomeGenerator", bdef="Sub", func="(lambda: None)")
+              mod="h.Module(name='X')", gen="SomeGenerator", bdef="Sub", func="(lambda: None)", role="h.Role(name='Host')")
     def val(s):
         t = mk[s[0]]
         if "{}" not in t:
@@ -492,7 +492,7 @@ def world_nontrivial(job):
 def py_repro_world(job):
     mk = dict(port="h.Port({})", sig="h.Signal({})", inst="h.Instance(of=Leaf{})", arr="h.InstanceArray(of=Leaf, n=2{})",
               ibun="h.Pair(of=Leaf{})", bun="h.BundleInstance(of=Sub{})", str="'Renamed'", none="None", int="7",
-              mod="h.Module(name='X')", gen="SomeGenerator", bdef="Sub", func="(lambda: None)")
+              mod="h.Module(name='X')", gen="SomeGenerator", bdef="Sub", func="(lambda: None)", role="h.Role(name='Host')")
     def val(sp):
         t = mk[sp[0]]
         if "{}" not in t:
